@@ -58,6 +58,8 @@ TRUSTED = [
 ]
 ASSUMPTIONS = [
     "requests are made by a logged-in media-group user with valid CSRF tokens (authorisation is C15)",
+    "routes that take a stream id and a media file id are exercised with the owner, another existing stream and a "
+    "non-existing stream in the URL (the handlers accept a mismatched pair: the model's delMedia/editMedia take both ids)",
     "well-formed arguments: names of [a-z0-9_]+, hexadecimal key ids, one Period per pid and one track id per Period "
     "within a single request (malformed input is C16)",
     "management operations answering 5xx (duplicate stream directory: IntegrityError) are modelled as refusals that "
@@ -175,6 +177,19 @@ def progress_op(rng, rows):
     return None
 
 
+def pick_url_stream(rng, streams, f):
+    """the <spk> of a route that takes both a stream and a media file id (/stream/<spk>/<mfid>…): the file's
+    own stream, ANOTHER existing stream (media file ids are global, the handlers accept the mismatched pair),
+    or a stream that does not exist"""
+    others = [s["pk"] for s in streams if f is None or s["pk"] != f["stream"]]
+    r = rng.random()
+    if f is not None and (r < .5 or (not others and r < .85)):
+        return f["stream"]
+    if others and r < .85:
+        return rng.choice(others)
+    return pick_pk(rng, streams, 1.0)
+
+
 def gen_op(rng, rows):
     streams, files, keys, mps, periods = rows["streams"], rows["files"], rows["keys"], rows["mps"], rows["periods"]
     unindexed = [f for f in files if not f["indexed"]]
@@ -184,13 +199,24 @@ def gen_op(rng, rows):
         op = progress_op(rng, rows)
         if op is not None:
             return op
+    # destructive scenarios that need a particular combination of arguments: a timing-reference file, or a file a
+    # period depends on, addressed below the URL of a stream that does not own it
+    if len(streams) >= 2 and rng.random() < .12:
+        trefs = [f for f in files if any(s["pk"] == f["stream"] and s["tref"] == f["name"] for s in streams)]
+        pool = trefs or indexed
+        if pool:
+            f = rng.choice(pool)
+            other = rng.choice([s["pk"] for s in streams if s["pk"] != f["stream"]])
+            if rng.random() < .7:
+                return ("dm", other, f["pk"], rng.randrange(2))
+            return ("em", other, f["pk"], rng.choice(TRACKS))
     cands = [
         ("as", 3 if len(streams) < 2 else (1.2 if len(streams) < 3 else .5)),
         ("up", 6 if streams else .3),
         ("ix", 6 if unindexed else (1.2 if files else .2)),
         ("es", 4 if streams else .2),
-        ("em", 1.6 if indexed else .2),
-        ("dm", 1.2 if files else .15),
+        ("em", 2 if indexed else .2),
+        ("dm", 2 if files else .15),
         ("ds", .8 if streams else .1),
         ("ak", .9), ("ek", .6 if keys else .1), ("dk", .9 if keys else .1),
         ("am", 3 if ready else .5),
@@ -231,13 +257,16 @@ def gen_op(rng, rows):
     if k == "em":
         f = rng.choice(indexed) if indexed and rng.random() < .8 else None
         mfid = f["pk"] if f else pick_pk(rng, files, .3)
-        spk = f["stream"] if f and rng.random() < .8 else pick_pk(rng, streams)
-        return ("em", spk, mfid, rng.choice(TRACKS))
+        return ("em", pick_url_stream(rng, streams, f), mfid, rng.choice(TRACKS))
     if k == "dm":
-        f = rng.choice(files) if files and rng.random() < .85 else None
+        # the timing-reference files are the interesting ones to lose
+        trefs = [f for f in files if any(s["pk"] == f["stream"] and s["tref"] == f["name"] for s in streams)]
+        if trefs and rng.random() < .45:
+            f = rng.choice(trefs)
+        else:
+            f = rng.choice(files) if files and rng.random() < .85 else None
         mfid = f["pk"] if f else pick_pk(rng, files, .5)
-        spk = f["stream"] if f and rng.random() < .8 else pick_pk(rng, streams)
-        return ("dm", spk, mfid, rng.randrange(2))
+        return ("dm", pick_url_stream(rng, streams, f), mfid, rng.randrange(2))
     if k == "ds":
         return ("ds", pick_pk(rng, streams), rng.randrange(2))
     if k == "ak":
@@ -264,6 +293,18 @@ def gen_op(rng, rows):
 
 
 # ------------------------------------------------------------------ running histories
+
+def url_stream_kind(state: str, spk: int, mfid: int) -> str:
+    """owner / other_existing / missing_stream / missing_file – from the canonical state before the step"""
+    m = re.match(r"S\[(.*?)\]F\[(.*?)\]", state)
+    spks = {int(x.split(",")[0]) for x in m.group(1).split("|") if x} if m else set()
+    owner = {int(x.split(",")[0]): int(x.split(",")[2]) for x in m.group(2).split("|") if x} if m else {}
+    if mfid not in owner:
+        return "missing_file"
+    if spk not in spks:
+        return "missing_stream"
+    return "owner" if owner[mfid] == spk else "other_existing"
+
 
 def fkey(msg: str) -> str:
     """class of an oracle failure: the message without numbers and names"""
@@ -385,8 +426,12 @@ def evaluate(w, histories, ch: Channel, t_deadline=None):
         ch.evaluations += len(h["ops"])
         kinds = {o[0] for o in h["ops"]}
         oks = sum(1 for r in h["real"] if r.startswith("ok|"))
+        prev_state = "S[]F[]"
         for o, r, st in zip(h["ops"], h["real"], h["status"]):
             ch.count(f"{o[0]}:{r.split('|', 1)[0]}")
+            if o[0] in ("em", "dm"):
+                ch.count(f"{o[0]}_url_stream:{url_stream_kind(prev_state, o[1], o[2])}")
+            prev_state = r.split("|", 1)[1]
             if st >= 500:
                 ch.count(f"management_5xx:{o[0]}")
         ch.count(f"len<={10 * ((len(h['ops']) + 9) // 10)}")
